@@ -147,6 +147,7 @@ def run_history(ns, mon, case):
     nback = interior_back = 0
     ninc = 0
     retained = set()
+    seeds = {}
     crossed_retained_twice = False
     crossed = {}
 
@@ -180,7 +181,15 @@ def run_history(ns, mon, case):
         t = w.tvals[node]
         if not t.requires_grad:
             return False
-        g = rng.standard_normal(t.shape) if t.shape else np.array(float(rng.uniform(0.5, 2.0)))
+        # the caller may keep one seed tensor per node and hand it in again (it must still hold what the caller put there)
+        reuse = node in seeds and rng.random() < 0.5
+        if reuse:
+            g = seeds[node][1]
+            if not np.array_equal(seeds[node][0].data, g):
+                viol.append(V("history:caller-seed-changed", "a seed tensor kept by the caller no longer holds the values it was given", events=w.events[-6:]))
+                g = np.array(seeds[node][0].data, dtype=np.float64)
+        else:
+            g = rng.standard_normal(t.shape) if t.shape else np.array(float(rng.uniform(0.5, 2.0)))
         contrib, ni = w.contribution(node, g)
         ninc += ni
         dep = w.deps()
@@ -188,8 +197,10 @@ def run_history(ns, mon, case):
         anc = ancestors(w.prog, node)
         snap = snapshot(w, exclude=anc)
         w.events.append(["backward", node, "leaf" if node < len(LEAVES) else ("interior" if is_consumed(w.prog, node) else "root")])
+        if not reuse:
+            seeds[node] = (ns.Tensor(np.array(g, dtype=np.float64)), np.array(g, dtype=np.float64))
         try:
-            t.backward(ns.Tensor(np.array(g, dtype=np.float64)))
+            t.backward(seeds[node][0])
         except Exception as e:
             import traceback
             viol.append(V("history:backward-raises", f"backward raised {type(e).__name__} in a legal history", error=str(e)[:200],
@@ -275,6 +286,20 @@ def run_history(ns, mon, case):
                     w.retain_ctx.__exit__(None, None, None)
                     w.retain_ctx = None
                     w.events.append(["retain_grads_exit"]); kinds.append("ctx-off")
+            elif r < 0.83 and rng.random() < 0.3:
+                # a backward call with a non-finite seed, followed at once by a full reset: nothing of it may survive the reset
+                cands = [v for v in w.tvals if w.tvals[v].requires_grad and v >= len(LEAVES)]
+                if cands:
+                    t_ = w.tvals[cands[int(rng.integers(len(cands)))]]
+                    gp = np.full(t_.shape, np.inf)
+                    with np.errstate(all="ignore"):
+                        try:
+                            t_.backward(ns.Tensor(gp))
+                        except Exception:
+                            pass
+                    w.events.append(["backward_with_inf_seed"])
+                    reset(["zero_module", "zero_optimizer"][int(rng.integers(2))])
+                    kinds.append("poison-reset")
             elif r < 0.86:
                 o = w.opt0[int(rng.integers(2))]
                 o.step()
